@@ -9,6 +9,8 @@ and the token listings of the shared acceptance corpus.
 """
 from __future__ import annotations
 
+import json
+
 import itertools
 import os
 
@@ -299,6 +301,68 @@ def job_script(paths):
     return acc
 
 
+@worker
+def job_script_paths(script):
+    """The scripts take their arguments as paths, literally: files whose names contain shell / glob metacharacters, blanks or non-ASCII letters
+    (with a decoy next to them that a pattern would match instead) are read as named, once per mention, in the order given."""
+    import os
+    import shutil
+    import tempfile
+    from .c17 import run_script
+    acc = Acc()
+    good, bad = R.corpus()
+    tmp = tempfile.mkdtemp(prefix='c18-paths-')
+    try:
+        texts = [R.read_source(p) for p in good[:6]]
+        names = ['login[1].feature', 'login1.feature', 'a*b.feature', 'ab.feature', 'q?.feature', 'with blank.feature', 'ü😀.feature', '{x,y}.feature', '~t.feature', '-n.feature']
+        paths = []
+        written = {}
+        for i, n in enumerate(names):
+            path = os.path.join(tmp, n)
+            written[path] = texts[i % len(texts)].replace('Feature:', 'Feature: %d' % i, 1)
+            with open(path, 'w', encoding='utf8', newline='') as f:
+                f.write(written[path])
+            paths.append(path)
+        flags = [] if script == 'generate_tokens' else ['--no-source', '--no-pickles']
+        singles = []
+        for path in paths:
+            case = {'kind': 'script-paths', 'script': script, 'names': [os.path.basename(path)]}
+            acc.n += 1
+            acc.validated += 1
+            try:
+                singles.append(run_script(script, flags + [path]))
+            except BaseException as e:  # noqa: BLE001
+                acc.violation('script-exception', case, '%s raised %s: %s' % (script, type(e).__name__, e))
+                return acc
+            if script == 'generate_tokens':
+                a = I.tokens(written[path])
+                if a[0] != 'ok' or singles[-1] != a[1] + '\n':
+                    acc.violation('script-paths', case, '%s %r does not print the listing of that file' % (script, os.path.basename(path)), observed=singles[-1][:120])
+            if script != 'generate_tokens' and ('"uri": "%s"' % path.replace('\\', '\\\\')) not in singles[-1] and (json.dumps(path)[1:-1] not in singles[-1]):
+                acc.violation('script-paths', case, '%s %r does not print a document with that uri' % (script, os.path.basename(path)), observed=singles[-1][:160])
+        for order in (list(range(len(paths))), [2, 0, 0, 5, 7, 4]):
+            case = {'kind': 'script-paths', 'script': script, 'names': [names[i] for i in order]}
+            acc.n += 1
+            acc.validated += 1
+            acc.nontrivial += 1
+            try:
+                out = run_script(script, flags + [paths[i] for i in order])
+            except BaseException as e:  # noqa: BLE001
+                acc.violation('script-exception', case, '%s raised %s: %s' % (script, type(e).__name__, e))
+                continue
+            want = ''.join(singles[i] for i in order)
+            if script != 'generate_tokens':
+                # one stream: ids continue, so compare envelope kinds and uris only
+                out = [(next(iter(e)), (e.get('gherkinDocument') or {}).get('uri')) for e in map(json.loads, out.splitlines())]
+                want = [(next(iter(e)), (e.get('gherkinDocument') or {}).get('uri')) for e in map(json.loads, want.splitlines())]
+            if out != want:
+                acc.violation('script-paths', case, '%s over paths with unusual names does not print one listing per path given, in order' % script)
+    finally:
+        shutil.rmtree(tmp, ignore_errors=True)
+    acc.sample({'script': script, 'names': names})
+    return acc
+
+
 def _noid(o):
     if isinstance(o, dict):
         return {k: _noid(v) for k, v in o.items() if k != 'id'}
@@ -506,6 +570,7 @@ def run(ctx):
     ctx.level('generate_tokens script on the corpus, alone and several paths at once', [job_script.job(good[i:i + 3]) for i in range(0, len(good), 3)])
     L = ctx.pick(5, 6)
     jobs = [job_words.job((), 1)] + [job_words.job((a,), 1) for a in KINDS] + [job_words.job((a, b), L) for a in KINDS for b in KINDS]
+    ctx.level('scripts given paths with glob characters, blanks, non-ASCII names', [job_script_paths.job(sc) for sc in ('generate_tokens', 'generate_events')])
     ctx.level('kind-sequences L<=%d' % L, jobs)
     r1, r2 = ctx.pick((3, 1), (4, 2))
     ctx.level('look-ahead words r1<=%d r2<=%d' % (r1, r2), [job_la.job(s, r1, r2, False) for s in la_states()])
@@ -530,6 +595,8 @@ def replay(case):
                 acc.merge(job_after_abort(i))
     elif case.get('kind') == 'corpus':
         acc.merge(job_corpus(case['path']))
+    elif case.get('kind') == 'script-paths':
+        acc.merge(job_script_paths(case['script']))
     elif case.get('kind') == 'script':
         import os
         from .. import core as _core
